@@ -126,7 +126,7 @@ fn check_validate<S: Subject>(plan: &Plan, ctx: &Ctx, stats: &mut Stats) -> Resu
                 (Expect::Either, _) => true,
                 (Expect::OkOrKnown(_), Ok(())) => true,
                 (Expect::OkOrKnown(c), Err(g)) => {
-                    if stats.strict || !(g.starts_with("SourceOrder") || g.starts_with("Value")) {
+                    if stats.strict || !crate::engine::class_enabled(c) || !(g.starts_with("SourceOrder") || g.starts_with("Value")) {
                         false
                     } else {
                         stats.exempt(c);
